@@ -61,11 +61,11 @@ TAG_FAR = "chi2.monotone_far_tail_dof3to8"
 NOISE_ALPHA = 2.5e-12
 NOISE_MAX_REL = 4e-6
 TAG_NOISE = "normal.monotone_cancellation_noise"
-#  F3  Student, N = 2, |alpha - 0.5| <= 1e-7: the closed form sqrt(2/(a(2-a)) - 2) cancels
+#  F3  Student, N = 2, |alpha - 0.5| <= 2e-7: the closed form sqrt(2/(a(2-a)) - 2) cancels
 #      (statan.cpp Student(), branch N <= 2); absolute error ~2e-16/q, up to 2.1e-8 at the zero crossing,
-#      above the absolute floor 1e-9 of the accuracy bound
-HALF_WIDTH = 1e-7
-HALF_MAX_ABS = 1e-7
+#      above the bound 5e-4 q + 1e-9 for q < ~2.2e-7 (|alpha - 0.5| < ~8e-8)
+HALF_WIDTH = 2e-7
+HALF_MAX_ABS = 1e-6
 TAG_HALF = "student.dof2_cancellation_at_half"
 
 
